@@ -508,8 +508,6 @@ def stb99_seed_expect(f):
         return "524"
     if ri[0] != r or not chain_ok(ri, 0):
         return "524"
-    if SRC_RI_MARGIN != 0 and not chain_ok(ri, SRC_RI_MARGIN):
-        return None     # stb99.h accepts, the source still applies the di rule to ri (docs/C12.fix-6.diff pending)
     return "0"
 
 
